@@ -46,7 +46,7 @@ impl Part for WirePart {
         "2..5 or 11..13 shards (one mock primary each, optionally a replica), pg_bigint_hash or sha1; sessions of 2..10 steps over {SET SHARD n (in and out of range), SET SHARDING KEY k, plain tagged query, query with sharding_key / shard_id comment, query with a literal equated to the automatic sharding key (4 shapes), SHOW SHARD}; model = sticky shard selection with the reference partition function; oracle: each tagged statement is logged by a backend of the model's shard, out-of-range SET SHARD answers an error and leaves the selection, SHOW SHARD prints the model's value. Non-trivial = at least two different shards selected in the session or an out-of-range SET SHARD".into()
     }
     fn cases(&self, tier: Tier) -> u64 {
-        tier.pick(250, 6_000)
+        tier.pick(1_000, 12_000)
     }
     fn strategy(&self, _tier: Tier) -> BoxedStrategy<Case> {
         let key = prop_oneof![3 => 0i64..1000, 2 => any::<i64>().prop_map(|k| k.checked_abs().unwrap_or(i64::MAX)), 1 => Just(i64::MAX)];
